@@ -153,6 +153,7 @@ func MutexLock(m *sync.Mutex) {
 		Stop("deadlock: Lock on a mutex that is held and never released")
 	}
 	mutexHeld[m] = 1
+	LockEvent(m, true)
 }
 
 //verif:replace (*sync.Mutex).Unlock
@@ -162,6 +163,7 @@ func MutexUnlock(m *sync.Mutex) {
 		panic("sync: unlock of unlocked mutex")
 	}
 	mutexHeld[m] = 0
+	LockEvent(m, false)
 }
 
 //verif:replace (*sync.Mutex).TryLock
@@ -170,6 +172,7 @@ func MutexTryLock(m *sync.Mutex) bool {
 		return false
 	}
 	mutexHeld[m] = 1
+	LockEvent(m, true)
 	return true
 }
 
